@@ -86,14 +86,22 @@ class MessageSwitchCompileHandler(
             # We obviously don't want the bluprint
             value = value_blueprint.params[0]
             case_ops.append(self._generate_operation(OP_CASE_TEXT, [value, string]))
+            self._map_to_case(case_ops[-1], h)
         if self._default_handler:
             if not self._default_handler.is_message_case:
                 raise SsbCompilerError(
                     f(_("A message_ switch can only contain cases with strings (line {self.ctx.start.line})."))
                 )
             case_ops.append(self._generate_operation(OP_DEFAULT_TEXT, [self._default_handler.get_text()]))
+            self._map_to_case(case_ops[-1], self._default_handler)
 
         return [switch_op] + case_ops
+
+    def _map_to_case(self, op: SsbOperation, case_handler: CaseBlockCompileHandler | DefaultCaseBlockCompileHandler) -> None:
+        """The text operations are written where their case is, not where the message switch starts."""
+        self.compiler_ctx.source_map_builder.add_opcode(
+            op.offset, case_handler.ctx.start.line - 1, case_handler.ctx.start.column
+        )
 
     def add(self, obj: _SupportedHandlers) -> None:
         if isinstance(obj, CaseBlockCompileHandler):
